@@ -488,6 +488,50 @@ fn dispatch(srcs: &[Src], db: &TypeDb, consts: &BTreeMap<String, i128>, acc: &mu
                 }
             }
         }
+        // an arm that does its work inline (`self.push(Value::None)`, `{ let top = self.peek(0); self.push(top); }`, `self.pop()`):
+        // translated over the abstract interpreter state like the `*_impl` handlers
+        let inline = !matches!(body, Expr::MethodCall(mc) if toks(&*mc.receiver) == "self" && mc.method.to_string().ends_with("_impl"))
+            && !matches!(body, Expr::If(_))
+            && !what.starts_with("self.jump_if_stop_iter");
+        if inline {
+            let stmts: Vec<Stmt> = match &*a.body {
+                Expr::Block(b) => b.block.stmts.clone(),
+                other => vec![Stmt::Expr(other.clone(), Some(Default::default()))],
+            };
+            let callee_snapshot = acc.callees.clone();
+            let lean = format!("vm_arm_{}", op);
+            let r: R<String> = (|| {
+                let mut cx = new_cx(srcs, db, consts, "vm.rs", &format!("Vm::run arm {}", op), Some("Vm".to_string()), &callee_snapshot);
+                cx.vm_mode = true;
+                cx.ret_ty = LT::Unit;
+                let mut stmts = stmts.clone();
+                // the value of a trailing expression statement (e.g. what `self.pop()` returns) is discarded by the dispatch loop
+                if let Some(Stmt::Expr(_, semi @ None)) = stmts.last_mut() {
+                    *semi = Some(Default::default());
+                }
+                let body = cx.block(&stmts, &Kont::Return)?;
+                if !cx.inputs.is_empty() || cx.has_effects || !cx.cfg_inputs.is_empty() {
+                    return cx.un("inline dispatch arm reads state outside the abstract interpreter state");
+                }
+                Ok(format!(
+                    "\n/-- the arm of `Vm::run` for `OpCode::{}`, which works inline: `{}` -/\ndef {} (vm_ : Rs.Vm) : Rs.M (Unit × Rs.Vm) :=\n  {}\n",
+                    op,
+                    truncate_chars(&compact(&toks(&*a.body)), 120),
+                    lean,
+                    body
+                ))
+            })();
+            match r {
+                Ok(d) => {
+                    defs.push_str(&d);
+                    acc.names.push(lean);
+                }
+                Err(u) => {
+                    defs.push_str(&format!("\n-- UNTRANSLATED {} ({}: {}): {}\n", lean, u.file, u.item, u.why.replace('\n', " ")));
+                    failed.push((lean, format!("{}:{}: {}", u.file, u.item, u.why)));
+                }
+            }
+        }
         entries.push((op, what));
     }
     let mut out = defs;
